@@ -20,7 +20,8 @@ RULE = ('Metamorphic. (1) A query from the C01-C05 generators is rendered canoni
         'from an alphabet of every RBQL keyword with surrounding spaces, *, a.*, =, ==, #, commas, semicolons, brackets, both quote characters, backslashes, aN / a[N] / '
         'NR-like tokens, " as x", "WITH (header)", in single, double and triple quotes, is added as the last select item / a WHERE conjunct / an extra ORDER BY key / an '
         'UPDATE right-hand side: all other columns are unchanged and the new column equals the literal content for every record. A JS leg does the same through rbql-js. '
-        'Non-trivial = at least 3 distinct re-spelling kinds applied, or a literal containing a keyword or metacharacter; distinct = case digests.')
+        'Non-trivial = at least 3 distinct re-spelling kinds applied, or a literal containing a keyword or metacharacter; distinct = case digests.'
+        ' Later additions: white space inside multi-word keywords, CRLF line breaks and TAB-indented comment lines, every literal piece (and pairs) verbatim in three positions through both engines, literals ending with a backslash followed by a second literal, a deterministic synonym batch over empty / narrow / full join tables.')
 ASSUMPTIONS = ['comments are whole lines only', 'variable tokens are kept intact (a[ 1 ] is not a[1])', 'no raw line break inside a literal',
                'literals containing an a.ident / b.ident token are excluded when a header is present (known finding D8) and counted as excluded_known']
 
